@@ -112,6 +112,12 @@ def decode_value(v: Any, objs: dict) -> Any:
         return bytes.fromhex(v['$bytes'])
     if '$bytearray' in v:
         return bytearray.fromhex(v['$bytearray'])
+    if '$frac' in v:
+        from fractions import Fraction
+        return Fraction(*v['$frac'])
+    if '$dec' in v:
+        from decimal import Decimal
+        return Decimal(v['$dec'])
     if '$tuple' in v:
         return tuple(decode_value(x, objs) for x in v['$tuple'])
     if '$np' in v:
